@@ -15,7 +15,7 @@ func notYet(id string) {
 }
 
 func init() {
-	for _, id := range []string{"C03", "C04", "C05", "C08"} {
+	for _, id := range []string{"C05", "C08"} {
 		notYet(id)
 	}
 	claim("C06", "other",
@@ -87,4 +87,6 @@ func init() {
 		"xml.Lexer.Next: attribute tokens are returned only when the lexer was inside a tag and stays inside; start-tag tokens enter the tag state, closing tokens leave it, content tokens neither (R-TAGSTATE, for every path, by abstract interpretation with the inTag field tracked); closing tokens spell > /> ?> exactly (R-SPELL). Agreement with encoding/xml is not decided.",
 		engNote, "cursor engine with abstract heap for the inTag field", "DESIGN.md 4/C11",
 		"Decided: R-TAGSTATE(xml), R-SPELL(xml). Not decided: token-per-construct conformance (value-level). Note: an embedded NUL is reported as an error (never a silent end) but is then reported forever: see the C01 known finding.")
+	claim("C03", "other", "(in progress) parser path rules", "", "typestate dataflow over SSA paths", "DESIGN.md 4/C03", "in progress")
+	claim("C04", "other", "(in progress) scope pairing rules", "", "typestate dataflow over SSA paths", "DESIGN.md 4/C04", "in progress")
 }
